@@ -42,3 +42,11 @@ Definition reply_on_attr_name (r : reply_on) : string :=
 Definition reply_on_of_tag (t : string) : option reply_on :=
   if t =? "Success" then Some ROSuccess else if t =? "Error" then Some ROError
   else if t =? "Always" then Some ROAlways else None.
+
+(* Stand-ins the translator emits for a table it could not regenerate (never a stale copy): constant, but opaque to
+   `simpl` / `cbn`, so that proofs which only pass such a table around - and do not depend on its content - still go
+   through, while every proof ABOUT the table fails. Executable (`vm_compute` ignores opacity). *)
+Definition stub_opt {A : Type} (s : String.string) : option A := None.
+Definition stub_str (k : kind) : String.string := String.EmptyString.
+Definition stub_list (k : kind) : list String.string := nil.
+Global Opaque stub_opt stub_str stub_list.
